@@ -165,6 +165,11 @@ impl Nested {
         hook_release.store(true, Ordering::SeqCst);
         for _ in 0..300 { if fin.load(Ordering::SeqCst) { break; } std::thread::sleep(Duration::from_millis(10)); }
         let end = fin.load(Ordering::SeqCst);
+        // a waiter that only starts now, after the shutdown has completed, is released as well
+        let late = Arc::new(AtomicBool::new(false));
+        { let (m, f) = (mgr.clone(), late.clone()); rt.spawn(async move { m.wait().await; f.store(true, Ordering::SeqCst); }); }
+        for _ in 0..60 { if late.load(Ordering::SeqCst) { break; } std::thread::sleep(Duration::from_millis(10)); }
+        let late = late.load(Ordering::SeqCst);
         let closed = std::net::TcpStream::connect_timeout(&std::net::SocketAddr::from(([127, 0, 0, 1], port)), Duration::from_millis(300)).is_err();
         let count = mgr.get_connecions();
         kvarn::verif::set_callback(None);
@@ -172,7 +177,7 @@ impl Nested {
         drop(clients);
         rt.shutdown_background();
         if !hook_fired { return format!("inconclusive: hook point {} not reached", s.point); }
-        format!("mid={} end={} closed={} count={count} acked={}", b01(mid), b01(end), b01(closed), b01(s.hooks == 0 || acked.load(Ordering::SeqCst)))
+        format!("mid={} end={} late={} closed={} count={count} acked={}", b01(mid), b01(end), b01(late), b01(closed), b01(s.hooks == 0 || acked.load(Ordering::SeqCst)))
     }
 }
 impl Group for Nested {
@@ -212,6 +217,9 @@ impl Group for Nested {
         let unfinished_at_mid = s.conns_before > 0 && !matches!(s.hook, "release0") || s.main == "connect" || s.hooks > 0;
         if unfinished_at_mid && out.contains("mid=1") {
             return Some((format!("cut:{name}"), format!("wait() resolved while a connection / hook was still pending: {out}")));
+        }
+        if out.contains("end=1") && out.contains("late=0") {
+            return Some((format!("late:{name}"), format!("a wait() that starts after the shutdown completed is never released: {out}")));
         }
         if out.contains("end=0") {
             return Some((format!("hang:{name}"), format!("wait() never resolved although every connection finished: {out}")));
